@@ -7,6 +7,38 @@ HERE = os.path.dirname(os.path.dirname(os.path.abspath(__file__)))
 
 # id -> (technique, what the check decides, trusted / assumed)
 CLAIMED = {
+    'C05': ('closed-list store classification + effect analysis of the prange body + affine slice/offset arithmetic + call-site operand agreement (custom Cython front end)',
+            'Decides that every output cell is the unmodified value of the one kernel, a copy of a cell or zero (no arithmetic, buffers float32, returned unchanged); that the prange body writes only out[<induction variable>] with function-local scalars and a pure nogil callee '
+            '(race-free for every schedule and thread count); fast/slow path pairing; that one slice selects reference chunk and output columns; that chunk_slices tiles [0,n); pairwise column slice, mirror, condensed offsets.',
+            'Cython prange privatisation; NumPy view write-through; kernel correctness is C02.'),
+    'C06': ('dataflow rule for per-record isolation + re-evaluated C01/C07 strand and case premises + sibling agreement over every CLI SequenceFile site + table/ordering rules for the compression sniffer',
+            "Decides the gambit-side clauses: one generator element per record with no concatenation anywhere on the way to the search and one shared accumulator (union, no k-mer across contigs); mirrored strand windows and rc-encoder = encoder o complement; case folding; "
+            "every CLI site uses 'auto' compression, gzip magic, rewind, universal-newline text wrapper; parse() stream ownership.",
+            "Biopython's FASTA parser (wrapping, CRLF inside records, final newline), GzipFile, TextIOWrapper."),
+    'C08': ('alignment-provenance dataflow (order-preserving constructs only) + effect analysis over the per-row call-graph closure + taint rule for `cores`',
+            'Decides that ids, files, signatures, inputs, matrix rows and result items stay index-aligned from the click parameters to results.items through order-preserving constructs only (strict zip, enumerate, one-to-one comprehensions), '
+            'label derivation (.gz before FASTA suffix), length check, the signature-file channel, that the per-row computation writes nothing outside its own fresh locals, progress transparency, that cores reaches only thread/worker sinks, and exporter iteration order.',
+            'C13 (file order for every schedule), C05 (cells independent of chunking/threads); equality of channels is C01/C06/C12.'),
+    'C11': ('schema resolution of the CSV column paths against the model tables + header/path/doc agreement + registry agreement (writer vs reader) + hook table rules',
+            'Decides agreement clauses: every dotted CSV path resolves against the attrs/SQLAlchemy model and reports the attribute its header names; header set equals the documented set; rows only through csv.writer in COLUMNS order with absent values empty; '
+            'JSON images; archive writer registrations == reader hooks and key fields written == read; float32 written by exact widening.',
+            'cattrs structuring per field type; csv parse-back; json float repr round-trip.'),
+    'C12': ('table agreement (attributes/datasets written vs read, metadata fields) + affine bounds/fill arithmetic + guard dominance for the refusal path',
+            'Decides that attribute names and datasets written equal those read and cover every SignaturesMeta field with None<->Empty symmetry, the list-path bounds (0, cumsum) and fill slice equal the reader slice, dtype preservation and id kinds, '
+            'that the magic and marker guards raising SignaturesFileError dominate opening/construction, raising read forms, kmerspec round trip, create()/dump shape.',
+            'h5py stores dtypes/strings/compression losslessly.'),
+    'C16': ('alignment provenance per side + call-site orientation agreement + writer rules',
+            'Decides that each id list is assigned in the same branch as and derived from its source, square mode reuses the query ids, row labels go with the first matrix operand and column labels with the second, computed signatures descend from the same get_sequence_files call as their labels with the reconciled kspec, '
+            'and the CSV writer (header, strict zip of ids and rows, fixed 0.4f format, csv.writer).',
+            'format() rounding; C05/C13/C14/C15 for cells, order, parameters, symmetry.'),
+    'C17': ('affine index arithmetic + sibling agreement of the two children + call-chain operand agreement',
+            "Decides average linkage on the condensed form of the given matrix with no other option; for both children branch length = parent height - child height with child height 0 for leaves else link[child - nleaves, 2]; one clade per row holding its two children; leaves per label in order with the count asserted; root = last clade; "
+            'labels and signatures from one source; pairwise (non-flat) matrix unchanged through hclust to Newick.',
+            'SciPy average linkage = UPGMA with monotone heights and node numbering n + row; Biopython Newick writer.'),
+    'C18': ('effect / taint analysis over the package: session class rules, open-mode rules, classified write sinks vs database-path taint, mutator confinement by call graph, ORM write sweep (positive controls embedded)',
+            'Decides that the read-only session cannot flush or commit and is used at every session construction site, that the signature file is opened without a mode and no caller forwards one (h5py 3 pinned), that every write sink in the package is classified and none takes a database-derived path, '
+            'that HDF5 mutators live only in the writer functions reachable only from `signatures create`, and that no session write call or store on a given object exists on the read side.',
+            "SQLite read-only use of a read-write handle does not write; h5py mode 'r'."),
     'C14': ('abstract interpretation of each click command over None-ness x equality classes of k-mer-parameter entities; all abstract paths enumerated (states split, never joined)',
             'Decides for every option combination (abstract path) of every signature-handling command that all signature operands of each comparison sink have known-equal parameters (found the repaired `query -s` defect), '
             'that explicit -k/--prefix in dist agree with every operand, that every differ-path ends in raise click.ClickException before any sink/output, and the -k/--prefix / --db-params option discipline.',
